@@ -51,8 +51,10 @@ class Check:
         self.printed = []
 
     # ---------------------------------------------------------------- lean
-    def obligations(self, mods):
-        res = lean.check_obligations(mods, self.tier)
+    def obligations(self, mods, drivers=()):
+        """Build the property's Lean modules and the model drivers it needs;
+        every `theorem` of the modules is one obligation."""
+        res = lean.check_obligations(mods, self.tier, drivers)
         if self.oblig is None:
             self.oblig = res
         else:
@@ -260,7 +262,7 @@ def generic_replay(pid, path):
         print(json.dumps(rp, indent=1)[:3000])
         return 0
     exe = build.build_harness(rp["harness"], rp.get("variant", "asan"))
-    lean.lake(["build", "drv"])
+    lean.lake(["build", "drv_" + rp.get("model_family", rp["family"])])
     impl, reports = run.run_impl(exe, rp["lines"], stateful=rp.get("stateful", False), args=rp.get("harness_args"))
     model = run.run_model(rp.get("model_family", rp["family"]), rp["lines"])
     bad = 0
